@@ -78,3 +78,48 @@ func MsgNodes(u *Universe) []int {
 	}
 	return out
 }
+
+// GenRich draws a universe and decorates it with features outside the Coq model:
+// exposed oneofs and oneof wrapper messages. For oracle-only streams.
+func GenRich(r *vh.Rand, tag string) (*Universe, string) {
+	u, why := GenUniverse(r, tag)
+	for i := range u.Nodes {
+		n := &u.Nodes[i]
+		if n.Kind != KMsg || len(n.Refs) == 0 {
+			continue
+		}
+		allSingleMsg := true
+		var singles []int
+		for k, j := range n.Refs {
+			if n.Shape[k] != FSingle || u.Nodes[j].Kind != KMsg {
+				allSingleMsg = false
+			}
+			if n.Shape[k] == FSingle {
+				singles = append(singles, k)
+			}
+		}
+		switch {
+		case allSingleMsg && r.Chance(25):
+			n.Wrapper = true
+		case len(singles) > 0 && r.Chance(50):
+			// exposed oneofs over runs of consecutively declared single references
+			var runs [][]int
+			for _, k := range singles {
+				if len(runs) > 0 && runs[len(runs)-1][len(runs[len(runs)-1])-1] == k-1 {
+					runs[len(runs)-1] = append(runs[len(runs)-1], k)
+				} else {
+					runs = append(runs, []int{k})
+				}
+			}
+			for _, run := range runs {
+				if len(n.Expose) >= 2 || !r.Chance(70) {
+					continue
+				}
+				lo := r.Intn(len(run))
+				hi := r.Range(lo+1, len(run))
+				n.Expose = append(n.Expose, append([]int{}, run[lo:hi]...))
+			}
+		}
+	}
+	return u, "rich-" + why
+}
